@@ -35,6 +35,10 @@ static std::map<int, RefStream *> g_refs;
 struct Case {
         std::string fam;
         std::vector<std::vector<uint64_t>> segs; // per context: segment lengths (sum = total)
+        int sweep = 0;     // 1: placement sweep - a full manager of short jobs + one giant segment, for every (giant lane, shortest lane at a
+                           //    power-of-two distance); each round stops when the short jobs are done (the giant is not hashed to the end)
+        uint64_t big = 0;  // sweep: length of the giant segment
+        uint64_t seed = 0; // sweep: residues of the short jobs
 };
 static J to_json(const Case &c)
 {
@@ -47,6 +51,7 @@ static J to_json(const Case &c)
                 a.push(b);
         }
         j.set("segs", a);
+        if (c.sweep) j.set("sweep", c.sweep).set("big", (unsigned long long) c.big).set("seed", (unsigned long long) c.seed);
         return j;
 }
 static Case from_json(const J &j)
@@ -58,11 +63,13 @@ static Case from_json(const J &j)
                 for (auto &x : s.a) v.push_back(x.unum());
                 c.segs.push_back(v);
         }
+        c.sweep = j.num("sweep", 0); c.big = j.unum("big", 0); c.seed = j.unum("seed", 0);
         return c;
 }
 static std::vector<isal::HashFamily> g_fams;
 static size_t g_next_fam = 0;
 
+static bool run_one(const Case &c, const isal::HashFamily *f, pbt::Ctx &ctx, bool stop_early, const std::string &extra);
 static bool run(const Case &c, pbt::Ctx &ctx)
 {
         using namespace isal;
@@ -70,9 +77,47 @@ static bool run(const Case &c, pbt::Ctx &ctx)
         for (auto &x : g_fams)
                 if (x.label() == c.fam) f = &x;
         if (!f) { ctx.label("absent-family"); return true; }
+        if (c.sweep) {
+                int lanes = f->lanes > 0 ? f->lanes : 1;
+                int n = lanes > 32 ? 32 : lanes;
+                if (n < 2) { ctx.label("sweep: single-lane family"); return true; }
+                unsigned B = algo_desc[f->algo].block;
+                uint64_t placements = 0;
+                for (int g = 0; g < n; g++)
+                        for (int dist = 1; dist < n; dist <<= 1)
+                                for (int sign = -1; sign <= 1; sign += 2) {
+                                        int sidx = g + sign * dist;
+                                        if (sidx < 0 || sidx >= n) continue;
+                                        Case t;
+                                        t.fam = c.fam;
+                                        uint64_t x = c.seed + (uint64_t) g * 131 + (uint64_t) sidx;
+                                        int nb = 2;
+                                        for (int i = 0; i < n; i++) {
+                                                x = x * 6364136223846793005ull + 1442695040888963407ull;
+                                                uint64_t r = (x >> 33) % B;
+                                                if (i == g) t.segs.push_back({ c.big });
+                                                else if (i == sidx) t.segs.push_back({ B + r });
+                                                else t.segs.push_back({ (uint64_t) (nb++) * B + r });
+                                        }
+                                        placements++;
+                                        if (!run_one(t, f, ctx, true, " [placement sweep: giant segment of " + std::to_string(c.big) + " bytes submitted as job " + std::to_string(g) +
+                                                                              ", shortest job as job " + std::to_string(sidx) + " of " + std::to_string(n) + "]"))
+                                                return false;
+                                }
+                ctx.label("shape=placement-sweep");
+                ctx.label("sweep placements", placements);
+                ctx.nontrivial = true;
+                return true;
+        }
+        if (c.segs.empty()) { ctx.label("padding case (every family of this worker has had every shape)"); return true; }
+        return run_one(c, f, ctx, false, "");
+}
+static bool run_one(const Case &c, const isal::HashFamily *f, pbt::Ctx &ctx, bool stop_early, const std::string &extra)
+{
+        using namespace isal;
         const AlgoDesc &D = algo_desc[f->algo];
         const std::string site = c.fam;
-        auto failx = [&](const std::string &k, const std::string &m) { return ctx.fail(k + "|" + site, site + ": " + m); };
+        auto failx = [&](const std::string &k, const std::string &m) { return ctx.fail(k + "|" + site, site + ": " + m + extra); };
         if (!g_refs.count(f->algo)) g_refs[f->algo] = new RefStream(f->algo);
         RefStream &R = *g_refs[f->algo];
         guard::Arena A;
@@ -104,7 +149,11 @@ static bool run(const Case &c, pbt::Ctx &ctx)
                                         if (ctx_total(f->algo, r) != total)
                                                 if (failx("total-length", "total_length " + std::to_string(ctx_total(f->algo, r)) + " but the segments add up to " + std::to_string(total))) return false;
                                         std::vector<uint8_t> got = ref::digest_from_words(f->algo, ctx_digest(f->algo, r)), want = R.at(total);
-                                        if (got != want) {
+                                        if (got != want && total < (1ull << 29)) {
+                                                if (failx("digest|bystander", "digest wrong for a job of " + std::to_string(total) + " bytes that shared the manager with a job of 2^30 bytes or more (" +
+                                                                                      std::to_string(n) + " jobs in flight): got " + ref::hex(got).substr(0, 16) + ".. want " + ref::hex(want).substr(0, 16) + ".."))
+                                                        return false;
+                                        } else if (got != want) {
                                                 std::string thr = total >= (1ull << 32) + (1ull << 29) ? "2^32+2^29" : total >= (1ull << 32) ? "2^32" : "2^29";
                                                 if (failx("digest|" + thr, "digest wrong for a stream of " + std::to_string(total) + " bytes (>= " + thr + ", residue mod block " +
                                                                                    std::to_string(total % D.block) + ") in " + std::to_string(c.segs[&m - &M[0]].size()) + " segments: got " +
@@ -115,6 +164,18 @@ static bool run(const Case &c, pbt::Ctx &ctx)
                                 return true;
                         }
                 return !failx("returned-unknown", "unknown context returned");
+        };
+        // with stop_early only the short jobs have to finish
+        auto count_remaining = [&]() {
+                size_t r = 0;
+                for (size_t i = 0; i < n; i++) {
+                        if (M[i].done) continue;
+                        uint64_t t = 0;
+                        for (auto x : c.segs[i]) t += x;
+                        if (stop_early && t >= (1ull << 29)) continue;
+                        r++;
+                }
+                return r;
         };
         size_t remaining = n;
         int spins = 0;
@@ -141,8 +202,7 @@ static bool run(const Case &c, pbt::Ctx &ctx)
                         if (r && !finish(r)) return false;
                         progressed = true;
                 }
-                remaining = 0;
-                for (auto &m : M) remaining += !m.done;
+                remaining = count_remaining();
                 if (!remaining) break;
                 bool any_submittable = false;
                 for (size_t i = 0; i < n; i++) any_submittable |= (!M[i].held && !M[i].done);
@@ -159,17 +219,17 @@ static bool run(const Case &c, pbt::Ctx &ctx)
                                 if (anyheld) return !failx("stranded", "flush returned NULL while jobs are held");
                         } else if (!finish(r)) return false;
                 }
-                remaining = 0;
-                for (auto &m : M) remaining += !m.done;
+                remaining = count_remaining();
         }
         if (remaining) return !failx("not-finished", "jobs did not finish");
+        if (stop_early) return true;
         ctx.label("fam=" + c.fam);
         ctx.label("jobs", n);
         ctx.label("GiB_hashed_by_library_x100", bytes * 100 >> 30);
         for (auto &s : c.segs) {
                 uint64_t t = 0;
                 for (auto x : s) t += x;
-                ctx.label(t >= (1ull << 32) + (1ull << 29) ? "crosses=2^32+2^29" : t >= (1ull << 32) ? "crosses=2^32" : "crosses=2^29");
+                ctx.label(t >= (1ull << 32) + (1ull << 29) ? "crosses=2^32+2^29" : t >= (1ull << 32) ? "crosses=2^32" : t >= (1ull << 29) ? "crosses=2^29" : "bystander job");
         }
         ctx.nontrivial = true;
         return true;
@@ -201,10 +261,59 @@ int main(int argc, char **argv)
         P.gen = [](pbt::Ctx &ctx) {
                 using namespace pbt;
                 Case c;
-                const isal::HashFamily &f = g_fams[g_next_fam++ % g_fams.size()];
+                static size_t k = 0;
+                const size_t nf = g_fams.size(), idx = k++;
+                const isal::HashFamily &f = g_fams[g_next_fam++ % nf];
                 c.fam = f.label();
                 unsigned B = isal::algo_desc[f.algo].block;
                 int lanes = f.lanes > 0 ? f.lanes : (f.lanes == 0 ? 1 : 4);
+                // shapes, taken in turn per family: 0 = one job across 2^32 (+ companions), 1 = "twins": every job in flight has 2^30 bytes or
+                // more outstanding, 2 = "crowd": a full manager of short jobs plus one segment of 2^31 bytes or more
+                const int shape = (int) ((idx / nf) % 4);
+                if (ctx.optnum("shapes", 1) && ctx.optstr("tier", "") == "quick" && idx >= 4 * nf) return c; // padding
+                if (ctx.optnum("shapes", 1) && shape == 3) {
+                        c.sweep = 1;
+                        c.big = coin(1, 4) ? 0xffffffffull : (1ull << 31) + rng<uint64_t>(0, 1ull << 30);
+                        c.seed = rng64(1, UINT64_MAX - 8);
+                        return c;
+                }
+                if (ctx.optnum("shapes", 1) && shape == 1) {
+                        int n = lanes >= 2 ? rng<int>(2, lanes > 3 ? 3 : lanes) : 1;
+                        for (int i = 0; i < n; i++) {
+                                std::vector<uint64_t> sg;
+                                uint64_t g = (1ull << 30) + (uint64_t) i * 4099 * B + rng<uint64_t>(0, 1ull << 22);
+                                if (coin(1, 3)) { sg.push_back(g); sg.push_back(rng<uint64_t>(0, 3 * B)); }
+                                else sg.push_back(g);
+                                c.segs.push_back(sg);
+                        }
+                        ctx.label("shape=twins");
+                        return c;
+                }
+                if (ctx.optnum("shapes", 1) && shape == 2) {
+                        int n = lanes > 32 ? 32 : lanes;
+                        int g = rng<int>(0, n - 1), sidx = -1;
+                        if (n > 1) {
+                                // vector min-reductions pair lanes at power-of-two distances: put the shortest job there two times in three
+                                if (coin(2, 3)) {
+                                        int dist = 1 << rng<int>(0, 4);
+                                        sidx = coin() ? g + dist : g - dist;
+                                        if (sidx < 0 || sidx >= n) sidx = (g + dist) % n;
+                                }
+                                if (sidx < 0 || sidx == g) sidx = (g + 1 + rng<int>(0, n - 2)) % n;
+                        }
+                        uint64_t big = coin(1, 8) ? 0xffffffffull : (1ull << 31) + rng<uint64_t>(0, 1ull << 26);
+                        int next_blocks = 2;
+                        for (int i = 0; i < n; i++) {
+                                std::vector<uint64_t> sg;
+                                if (i == g) sg.push_back(big);
+                                else if (i == sidx) sg.push_back(B + rng<uint64_t>(0, B - 1));
+                                else sg.push_back((uint64_t) (next_blocks++) * B + rng<uint64_t>(0, B - 1));
+                                c.segs.push_back(sg);
+                        }
+                        ctx.label("shape=crowd");
+                        return c;
+                }
+                ctx.label("shape=across-2^32");
                 int n = rng<int>(lanes >= 2 ? 2 : 1, lanes > 3 ? 3 : lanes);
                 long p32 = ctx.optnum("p32", 25); // percent of the additional jobs that cross 2^32
                 long full32 = ctx.optnum("full32", 1); // the first job of every case crosses 2^32 (lanes run in parallel, so the others are almost free)
